@@ -70,6 +70,14 @@ def chk_bytes(case):
         v = call(b58.is_base58check, c[1])
         if v != ("ok", True):
             out.append(("C07/classifier/valid-not-true", f"is_base58check({c[1]}) = {v}"))
+    # the same byte string handed over as a MUTABLE buffer: same answers, and the caller's buffer is left as it was
+    for fn, ref in ((b58.base58encode, R.encode), (b58.base58check, R.check_encode)):
+        buf = bytearray(b)
+        r = call(fn, buf)
+        if bytes(buf) != b:
+            out.append(("C07/argument-mutated", f"{fn.__name__}(bytearray) changed the caller's buffer from {b.hex()} to {bytes(buf).hex()}"))
+        elif r[0] == "ok" and bytes(r[1]) != ref(b):
+            out.append(("C07/encode/mismatch/bytearray", f"{fn.__name__}(bytearray({b.hex()})) = {r}"))
     return out
 
 
@@ -277,6 +285,22 @@ def gen_strs(job):
                 cand = R.check_encode(raw[:-4])
                 if cand.startswith(prefix):
                     yield cand
+        # (c) a decoder whose digit lookup answers -1 for a foreign character (str.find / bytes.find) still gets the SAME integer
+        # when the pair <a>z is rewritten as <a+1><foreign>: (a+1)*58 - 1 = a*58 + 57.  Such strings must be refused.
+        for base in base_strings(job["seed"])[1:6] + [R.check_encode(b"\x00" + bytes(range(57, 77)))]:
+            for i in range(1, len(base)):
+                a, z = R.ALPHABET.index(chr(base[i - 1])), R.ALPHABET.index(chr(base[i]))
+                if z == 57 and a < 57:
+                    for foreign in b"0OIl _-\x00\x80\xff":
+                        yield base[:i - 1] + R.ALPHABET[a + 1].encode() + bytes([foreign]) + base[i + 1:]
+        # ... and one that answers 58 or more (ord-based arithmetic): <a><c> rewritten as <a-1><c+58 as a raw byte>
+        for base in base_strings(job["seed"])[2:4]:
+            for i in range(1, min(len(base), 12)):
+                a, c = R.ALPHABET.index(chr(base[i - 1])), R.ALPHABET.index(chr(base[i]))
+                if a > 0:
+                    for raw in (c + 58, c + 116):
+                        if raw < 256:
+                            yield base[:i - 1] + R.ALPHABET[a - 1].encode() + bytes([raw]) + base[i + 1:]
         # (b) Unicode lookalikes: one character of a valid string replaced by a code point that NFKC / lower() / upper() /
         # casefold() maps to it (UTF-8 encoded) - never an alphabet character
         from vf.classes import lookalike_substitutions
